@@ -233,5 +233,21 @@ def empty(slice_i, n):
     for spec in S_.empty_shapes(slice_i, n):
         yield {"model": spec, "points": None, "dl": [], "dc": []}
 
+def big_constants(tier):
+    """ENUMERATED: a node that STAYS undecided although one of its leaves is fixed at a value beyond the 16-bit default range
+    of integer variables (or beyond 32 bits) - the threshold is the constant plus a little - fixed by its bounds or by
+    assume(), under either sign, alone and under a parent"""
+    L = lambda i: {"k": "leaf", "id": i, "b": [0, 1]}
+    for c_ in (32767, 32768, 40000, 100000, -32768, -32769, -50000, 3_000_000_000, -2 ** 31 - 7):
+        for how in ("bounds", "assume"):
+            t = {"k": "leaf", "id": "t", "b": [c_, c_] if how == "bounds" else [min(0, c_) - 1, max(0, c_) + 1]}
+            for node in ({"k": "AtLeast", "id": "B", "v": c_ + 1, "s": 1, "c": [t, L("u"), {"k": "leaf", "id": "w", "b": [0, 2]}]},
+                         {"k": "AtLeast", "id": "B", "v": -c_ - 1, "s": -1, "c": [t, L("u"), {"k": "leaf", "id": "w", "b": [0, 2]}]},
+                         {"k": "AtMost", "id": "B", "v": c_ + 1, "c": [t, L("u"), L("x")]}):
+                for spec in (node, {"k": "All", "id": "A", "c": [node, L("z")]}, {"k": "Any", "id": "A", "c": [{"k": "Not", "c": [node]}, L("z")]}):
+                    sids = sorted(oracle.spec_leaves(spec))
+                    yield {"model": spec, "points": None, "dl": [[1, c_] if (i == "t" and how == "assume") else [0, 0] for i in sids], "dc": []}
+
+
 def parts(tier):
-    return [Part("wide_fixed", strategy=lambda t: wide_fixed_case(t), check=check, quick=(2, 40), thorough=(4, 500)), Part("scale", strategy=lambda t: __import__("vf.strategies", fromlist=["x"]).scale_case(allow_const=True).map(lambda c: dict(c, dl=[], dc=[])), check=check, quick=(2, 40), thorough=(4, 600)), Part("empty0", enumerate_cases=(lambda t: empty(0, 1)), check=check, time_quick=120.0), Part("empty1", enumerate_cases=(lambda t: ({"model": S.with_fixed_leaf(c_["model"], "b", 1), "points": None, "dl": [], "dc": []} for c_ in empty(0, 1))), check=check, time_quick=120.0), Part("reduce_twins", strategy=lambda t: reduce_twins_case(t), check=check, quick=(2, 300), thorough=(4, 4000))] + [Part("wide_nodes", strategy=lambda t: __import__("vf.strategies", fromlist=["x"]).wide_case(allow_const=True).map(lambda c: dict(c, dl=[], dc=[])), check=check, quick=(2, 150), thorough=(4, 2000))] + [Part("shapes%d" % i, enumerate_cases=(lambda t, i=i: shapes(i, 6)), check=check, time_quick=120.0) for i in range(6)] + [Part("reduce", strategy=lambda t: case_strategy(t), check=check, quick=(8, 350), thorough=(16, 2500))]
+    return [Part("big_constants", enumerate_cases=big_constants, check=check, time_quick=120.0), Part("wide_fixed", strategy=lambda t: wide_fixed_case(t), check=check, quick=(2, 40), thorough=(4, 500)), Part("scale", strategy=lambda t: __import__("vf.strategies", fromlist=["x"]).scale_case(allow_const=True).map(lambda c: dict(c, dl=[], dc=[])), check=check, quick=(2, 40), thorough=(4, 600)), Part("empty0", enumerate_cases=(lambda t: empty(0, 1)), check=check, time_quick=120.0), Part("empty1", enumerate_cases=(lambda t: ({"model": S.with_fixed_leaf(c_["model"], "b", 1), "points": None, "dl": [], "dc": []} for c_ in empty(0, 1))), check=check, time_quick=120.0), Part("reduce_twins", strategy=lambda t: reduce_twins_case(t), check=check, quick=(2, 300), thorough=(4, 4000))] + [Part("wide_nodes", strategy=lambda t: __import__("vf.strategies", fromlist=["x"]).wide_case(allow_const=True).map(lambda c: dict(c, dl=[], dc=[])), check=check, quick=(2, 150), thorough=(4, 2000))] + [Part("shapes%d" % i, enumerate_cases=(lambda t, i=i: shapes(i, 6)), check=check, time_quick=120.0) for i in range(6)] + [Part("reduce", strategy=lambda t: case_strategy(t), check=check, quick=(8, 350), thorough=(16, 2500))]
